@@ -49,6 +49,8 @@ def base_outcome(tr, extra_sig=()):
         "battery_subclass": any(s_["battery"].get("sub") for s_ in sc.get("sessions", [])),
         "interface_subclass": bool(sim_.get("iface_sub")),
         "verbose": bool(sim_.get("verbose")),
+        "queue_filled_after_construction": bool(sim_.get("late_fill")),
+        "operator_monitor": bool(sc.get("monitor")),
         "fractional_or_odd_period": sim_.get("period") not in (1, 5, 15, 60),
         "aware_start": bool(sim_.get("start_tz")),
         "start_with_seconds": len(sim_.get("start", [])) > 5,
